@@ -7,6 +7,7 @@ import (
 	"context"
 	"encoding/binary"
 	"fmt"
+	"os"
 	"sync"
 	"time"
 
@@ -47,7 +48,13 @@ type tamperRun struct {
 
 func (r *tamperRun) Sample() any { return r }
 
-var c09Kinds = []string{"flip", "flip", "flip-many", "truncate", "truncate-fixsize", "extend", "extend-fixsize", "reseal-wrong-keys", "reseal-direction-keys", "zero-signature", "strip-signature", "swap-halves"}
+var c09Kinds = []string{"flip", "flip", "flip-many", "truncate", "truncate-fixsize", "extend", "extend-fixsize", "reseal-wrong-keys", "reseal-direction-keys", "zero-signature", "strip-signature", "swap-halves",
+	// forgeries made without any key: the victim chunk is replaced by an unsigned,
+	// unencrypted chunk carrying a well-formed service message ("forge-plaintext"),
+	// or an unsecured OpenSecureChannel chunk naming policy #None is slipped in
+	// after the victim, followed by unsecured MSG chunks ("forge-opn-none": a
+	// downgrade attempt on a channel that was opened with Sign / SignAndEncrypt)
+	"forge-plaintext", "forge-plaintext", "forge-opn-none", "forge-opn-none"}
 
 func (r *tamperRun) setup(s *sim.Sim, mode string) {
 	p := s.Plan
@@ -101,12 +108,39 @@ func (r *tamperRun) Main(s *sim.Sim) {
 	// the tap sees chunks in write order; the oracle attached before it has already opened them
 	var lastPlain = map[string]*refcodec.Chunk{}
 	ora.OnPlain = func(dir string, ch *refcodec.Chunk) { lastPlain[dir] = ch }
+	// bodies of the keyless forgeries: a WriteRequest with marker 0 (the server
+	// side flags any delivered marker 0 as a message nobody sent) and a
+	// ReadResponse whose payload matches no request
+	forgedReq := func() []byte {
+		q, _ := c07Request(0, 32)
+		q.RequestHeader = &ua.RequestHeader{AuthenticationToken: ua.NewTwoByteNodeID(0), Timestamp: time.Now(), AdditionalHeader: ua.NewExtensionObject(nil)}
+		b, _ := encodeService(q)
+		return b
+	}()
+	forgedResp := func() []byte {
+		b, _ := encodeService(&ua.ReadResponse{ResponseHeader: rawRespHeader(1, ua.StatusOK), Results: []*ua.DataValue{{EncodingMask: ua.DataValueValue, Value: ua.MustVariant([]byte("forged"))}}})
+		return b
+	}()
+	forgedOpen := func(renew bool) []byte {
+		q := &ua.OpenSecureChannelRequest{RequestHeader: &ua.RequestHeader{AuthenticationToken: ua.NewTwoByteNodeID(0), Timestamp: time.Now(), AdditionalHeader: ua.NewExtensionObject(nil)},
+			RequestType: ua.SecurityTokenRequestTypeIssue, SecurityMode: ua.MessageSecurityModeNone, RequestedLifetime: 3600000}
+		if renew {
+			q.RequestType = ua.SecurityTokenRequestTypeRenew
+		}
+		b, _ := encodeService(q)
+		return b
+	}
+	forgedOpenAt := -1 // number of server->client OPN chunks seen when the forged open was injected
+	s2cOpens := 0
 	tap := func(dir string) sim.Tap {
 		return sim.TapFunc(func(d *sim.Dir, fr []byte) [][]byte {
 			mu.Lock()
 			defer mu.Unlock()
 			typ := string(fr[:3])
 			out := [][]byte{fr}
+			if dir == "s2c" && typ == "OPN" {
+				s2cOpens++
+			}
 			if countdown >= 0 && dir == r.Plan.Dir {
 				if countdown == 0 {
 					out = append(out, held)
@@ -181,6 +215,35 @@ func (r *tamperRun) Main(s *sim.Sim) {
 					copy(f[16:], f[h:h+len(tmp)])
 					copy(f[16+len(tmp):], tmp)
 				}
+			case "forge-plaintext":
+				ch := lastPlain[dir]
+				if typ != "MSG" || ch == nil {
+					f[len(f)-1] ^= 1
+					break
+				}
+				body := forgedReq
+				if dir == "s2c" {
+					body = forgedResp
+				}
+				f = (&refcodec.Chunk{Type: "MSG", ChunkType: 'F', ChannelID: ch.ChannelID, TokenID: ch.TokenID, Seq: ch.Seq, RequestID: ch.RequestID, Body: body}).EncodePlain()
+			case "forge-opn-none":
+				ch := lastPlain[dir]
+				if typ != "MSG" || ch == nil || dir != "c2s" {
+					f[len(f)-1] ^= 1
+					break
+				}
+				// the genuine chunk passes; then the downgrade attempt
+				forgedOpenAt = s2cOpens
+				// whatever the server channel emits from here on that the
+				// reference cannot open is the consequence of the forgery
+				ora.blame("C09")
+				opn := (&refcodec.Chunk{Type: "OPN", ChunkType: 'F', ChannelID: ch.ChannelID, PolicyURI: refcodec.PolicyNone, Seq: ch.Seq + 1, RequestID: ch.RequestID + 5000, Body: forgedOpen(r.Plan.B%2 == 0)}).EncodePlain()
+				out = append(out, opn)
+				for k, tok := range []uint32{ch.TokenID, ch.TokenID + 1, 0} {
+					out = append(out, (&refcodec.Chunk{Type: "MSG", ChunkType: 'F', ChannelID: ch.ChannelID, TokenID: tok, Seq: ch.Seq + 2 + uint32(k), RequestID: ch.RequestID + 5001 + uint32(k), Body: forgedReq}).EncodePlain())
+				}
+				victimReq = 0 // the victim itself is genuine
+				return out
 			case "reseal-wrong-keys", "reseal-direction-keys":
 				if typ != "MSG" || len(ora.tokens) == 0 {
 					f[len(f)-1] ^= 1
@@ -370,6 +433,13 @@ func (r *tamperRun) Main(s *sim.Sim) {
 		return
 	}
 	s.Nontrivial()
+	if os.Getenv("DBG_C09") != "" && r.Plan.Kind == "forge-opn-none" {
+		fmt.Fprintf(os.Stderr, "DBG forge-opn-none at=%d opens=%d srvErrs=%v delivered=%v\n", forgedOpenAt, s2cOpens, srvErrs, srvDelivered)
+	}
+	if forgedOpenAt >= 0 && s2cOpens > forgedOpenAt {
+		s.Fail("C09", "forged-open-answered", "unsecured-OPN-on-secured-channel", "an unsigned, unencrypted OpenSecureChannel chunk naming policy #None was injected into a %s/%d channel and the server channel answered it with an OpenSecureChannel response (security downgrade)", r.Cfg.Policy, r.Cfg.Mode)
+		return
+	}
 	// nothing that was not sent may ever be delivered
 	for _, dl := range srvDelivered {
 		if dl.marker == 0 || !dl.payloadOK {
@@ -383,7 +453,9 @@ func (r *tamperRun) Main(s *sim.Sim) {
 			return
 		}
 	}
-	if r.Mode == "c09" && r.Plan.Kind != "extend" {
+	if r.Mode == "c09" && r.Plan.Kind == "forge-opn-none" && forgedOpenAt >= 0 {
+		s.Probe("forged-open-not-answered")
+	} else if r.Mode == "c09" && r.Plan.Kind != "extend" {
 		// (bytes appended after a chunk without touching it are a separate piece of
 		// junk on the stream: the chunk itself is genuine and may be delivered)
 		// the message that contained the tampered chunk must not have been delivered
